@@ -605,6 +605,73 @@ void runPool()
   checkTimers("pool", 0, true);
   L = nullptr;
 }
+// stop -> reset -> start: a second life of the same service object.  Whatever the first life leaves behind (a cancelled
+// timer whose heap entry was never collected, a timer still pending at stop, a timer that fired) must not touch the
+// second: a timer scheduled after the restart - identifiers start again at 1 after reset() - fires once, not before its
+// own deadline, and nothing of the first life fires any more.
+void runRestart()
+{
+  mc_label("main:restart");
+  Log log;
+  L = &log;
+  log.tm.reserve(16);
+  TimerServiceConfig cfg;
+  cfg.enableStatistics = false;
+  auto *svc = new TimerService(cfg);
+  C08_WATCH(svc, sizeof(TimerService), "timer.service");
+  auto sched = [&](uint64_t ms)
+  {
+    int k = int(L->tm.size());
+    L->tm.emplace_back();
+    L->tm[size_t(k)].callNs = mc_now_ns();
+    L->tm[size_t(k)].delayMs = ms;
+    uint64_t id = svc->scheduleAfter(milliseconds(ms), [k]() { handlerBody(k); });
+    L->tm[size_t(k)].id = id;
+    L->tm[size_t(k)].accepted = id != 0;
+    return k;
+  };
+  int leftover = mc_choose(3, MC_FREE); // 0 cancelled, 1 pending at stop, 2 fired
+  int secondDelay = mc_choose(2, MC_FREE) ? 10 : 150; // before / after the first life's deadline
+  int k0 = sched(30);
+  if (leftover == 0)
+  {
+    if (svc->cancel(log.tm[size_t(k0)].id))
+    {
+      log.tm[size_t(k0)].cancelTrue = true;
+      log.tm[size_t(k0)].cancelReturnStep = mc_step();
+    }
+  }
+  else if (leftover == 2)
+    mc_quiesce(40 * MS);
+  svc->stop();
+  uint64_t firstStopStep = mc_step();
+  size_t firedInFirstLife = log.tm[size_t(k0)].startNs.size();
+  auto r = svc->reset();
+  auto st = r.success ? svc->start() : r;
+  mc_obs("leftover=%d second=%d reset=%d start=%d", leftover, secondDelay, int(r.success), int(st.success));
+  if (r.success && st.success)
+  {
+    int k1 = sched(uint64_t(secondDelay));
+    if (!log.tm[size_t(k1)].accepted)
+      mc_violation("never-dropped", "ts-restart:schedule-refused-on-restarted-service", "scheduleAfter() on a service that was stopped, reset and started again returned 0");
+    for (int i = 0; i < 150 && svc->getInFlightCount() > 0; ++i)
+      mc_quiesce(20 * MS);
+    mc_quiesce(60 * MS);
+    if (log.tm[size_t(k1)].accepted && log.tm[size_t(k1)].startNs.size() != 1)
+      mc_violation("never-dropped", "ts-restart:second-life-timer-fired-" + std::to_string(log.tm[size_t(k1)].startNs.size()) + "-times",
+                   "a timer scheduled after stop/reset/start fired " + std::to_string(log.tm[size_t(k1)].startNs.size()) + " times while the service ran past its deadline");
+    if (log.tm[size_t(k0)].startNs.size() != firedInFirstLife)
+      mc_violation("quiet-after-stop", "ts-restart:first-life-timer-fired-after-restart", "a timer scheduled before stop() fired after the service was reset and restarted");
+    (void)firstStopStep;
+  }
+  svc->stop();
+  log.stopped = true;
+  checkTimers("ts-restart", 0, false);
+  mc_quiesce(50 * MS);
+  C08_UNWATCH(svc);
+  delete svc;
+  L = nullptr;
+}
 } // namespace
 
 int main(int argc, char **argv)
@@ -662,6 +729,20 @@ int main(int argc, char **argv)
     McScenario m;
     m.name = "pool";
     m.body = []() { runPool(); };
+    m.quick.P = 1;
+    m.quick.T = 1;
+    m.quick.S = 1;
+    m.quick.total = 2;
+    m.thorough = m.quick;
+    m.thorough.P = 2;
+    m.thorough.total = 3;
+    m.horizon_s = 30;
+    v.push_back(m);
+  }
+  {
+    McScenario m;
+    m.name = "ts_restart_cycle";
+    m.body = []() { runRestart(); };
     m.quick.P = 1;
     m.quick.T = 1;
     m.quick.S = 1;
